@@ -175,7 +175,7 @@ func (fr *Frame) callStatic(site ssa.Instruction, fn *ssa.Function, args []*Term
 	if fc == nil {
 		fc = vc.eng.db.funcs[stripTypeParams(name)]
 	}
-	if fc != nil && fr.mode != nil && fr.mode.Safety && !fc.Reflective && fc.Kind == "func" && len(fn.Blocks) > 0 && fr.depth < 5 && !fr.onStack(fn) && !hasLoops(fn) && !fc.Opaque {
+	if fc != nil && fr.mode != nil && fr.mode.Safety && !fc.Reflective && fc.Kind == "func" && len(fn.Blocks) > 0 && fr.depth < 5 && !fr.onStack(fn) && (!hasLoops(fn) || fc.SafetyInline) && !fc.Opaque {
 		fc = nil // safety sweep: look inside (loop-free) callees instead of trusting their preconditions
 	}
 	if fc != nil {
